@@ -233,6 +233,100 @@ func c08(c *Ctx) {
 			}
 			r.Check(okLoop, "C08.S2", fi.Name(), "Wait is inside a loop that re-checks the predicate", pos, "for { look-up; …; Wait() }",
 				"Wait is not followed by a re-evaluation of the successor look-up: a spurious or early wake-up returns without a message, or a missed one blocks forever")
+			// (a') the predicate is evaluated under the write lock before waiting: on every path from the acquisition of
+			// messagesMu (write mode) to Wait there is a successor look-up — otherwise an Add that lands between the read
+			// lock being released and the write lock being taken is never noticed (lost wake-up)
+			{
+				missed := false
+				for _, lv := range g.Nodes() {
+					if lv.Node == nil {
+						continue
+					}
+					isW := false
+					for _, c2 := range astx.Calls(lv.Node, false) {
+						if op := lockOpOf(info, c2); op != nil && op.op == "Lock" && op.lock == "OutputStream.messagesMu" {
+							isW = true
+						}
+					}
+					if !isW {
+						continue
+					}
+					lookup := func(x int) bool {
+						if g.V[x].Node == nil {
+							return false
+						}
+						for _, c2 := range astx.Calls(g.V[x].Node, false) {
+							if fn := astx.Callee(info, c2); fn == gu.Obj {
+								return true
+							}
+						}
+						return false
+					}
+					for _, e := range lv.Succ {
+						if (e.To == v && !lookup(e.To)) || g.Reach(e.To, lookup, nil)[v] {
+							missed = true
+						}
+					}
+				}
+				// … and that look-up uses a NextID read under the write lock: the batch the reader waits behind is re-read
+				// (x = getUnlocked(…)) on every path from the acquisition to getUnlocked(x.NextID)
+				for _, sv := range g.Nodes() {
+					if sv.Node == nil {
+						continue
+					}
+					for _, c2 := range astx.Calls(sv.Node, false) {
+						if fn := astx.Callee(info, c2); fn != gu.Obj || len(c2.Args) != 1 {
+							continue
+						}
+						se, ok := ast.Unparen(c2.Args[0]).(*ast.SelectorExpr)
+						if !ok || se.Sel.Name != "NextID" {
+							continue
+						}
+						xid, ok := ast.Unparen(se.X).(*ast.Ident)
+						if !ok {
+							continue
+						}
+						xo := astx.Obj(info, xid)
+						refresh := func(x int) bool {
+							as, ok := g.V[x].Node.(*ast.AssignStmt)
+							if !ok || len(as.Rhs) != 1 {
+								return false
+							}
+							rc, ok := ast.Unparen(as.Rhs[0]).(*ast.CallExpr)
+							if !ok || astx.Callee(info, rc) != gu.Obj {
+								return false
+							}
+							for _, l := range as.Lhs {
+								if id, ok := l.(*ast.Ident); ok && astx.Obj(info, id) == xo {
+									return true
+								}
+							}
+							return false
+						}
+						for _, lv := range g.Nodes() {
+							if lv.Node == nil {
+								continue
+							}
+							isW := false
+							for _, c3 := range astx.Calls(lv.Node, false) {
+								if op := lockOpOf(info, c3); op != nil && op.op == "Lock" && op.lock == "OutputStream.messagesMu" {
+									isW = true
+								}
+							}
+							if !isW {
+								continue
+							}
+							for _, e := range lv.Succ {
+								if (e.To == sv.ID && !refresh(e.To)) || g.Reach(e.To, refresh, nil)[sv.ID] {
+									missed = true
+								}
+							}
+						}
+					}
+				}
+				r.Check(!missed, "C08.S2", fi.Name(), "the successor look-up precedes the first Wait under the write lock", pos, "every path from messagesMu.Lock() to Wait() passes getUnlocked",
+					"GetNext can reach Wait without having looked for a successor since it took the write lock: an Add that completed after the read lock was released is missed and the reader sleeps although a successor exists")
+			}
 			// (b) held in write mode
 			r.Check(lf.must[v]["OutputStream.messagesMu"] == "W", "C08.S2", fi.Name(), "Wait with messagesMu held in write mode", pos, "lockset "+lf.must[v].String(),
 				"sync.Cond.Wait is called without its Locker (messagesMu, write mode) held on every path: Wait unlocks an unlocked/read-locked mutex (runtime fatal error) or misses wake-ups")
